@@ -446,6 +446,10 @@ func (g *gen) numExpr(d int) ex {
 		for i := 0; i < n; i++ {
 			parts = append(parts, g.w(g.expr(kNum, d-1), pAssign))
 		}
+		if r.Chance(1, 10) {
+			// Math.pow of numbers: rewritten to ** from ES2016 on only (a version gate), value-preserving for numbers
+			return ex{s: "Math.pow(" + g.w(g.expr(kNum, d-1), pAssign) + "," + g.w(g.expr(kNum, d-1), pAssign) + ")", p: pCall, call: true}
+		}
 		if g.known && r.Chance(1, 3) {
 			switch r.Intn(4) {
 			case 0:
